@@ -36,7 +36,9 @@ def check(run: Run) -> None:
     run.rule("C08.R4", "inner lambda parameter type wins over inherited names")
     ctx = TermCtx(m, max_depth=1, opaque={"lookup_type", "unwrap_iterable", "get_type_hints", "remap_from_lambda", "clone_with_new_ast", "function_call", "parse_as_ast", "_local_simplification", "_fill_in_default_arguments", "resolve_type_vars"})
     outer = m.find_func("remap_by_types", in_module=mod)
-    classes = [c for c in m.classes.values() if c.parent_func is outer and m.is_transformer(c)]
+    from ..lib import used_visitor
+
+    classes = [used_visitor(m, ctx, outer, True)]
     if len(classes) != 1:
         raise AnalysisError("remap_by_types no longer contains one transformer")
     tt = classes[0]
